@@ -39,6 +39,11 @@ pub fn check_pair(c: &PairCase, st: &mut Stats) -> Result<(), Failure> {
     let ab = val_of(guard(|| ra.intersect(rb)).map_err(|p| Failure::new("intersect-panics", format!("{}: intersect panicked: {}", ctx(), p)))?)?;
     let ba = val_of(guard(|| rb.intersect(ra)).map_err(|p| Failure::new("intersect-panics", format!("{}: B.intersect(A) panicked: {}", ctx(), p)))?)?;
     let aa = val_of(guard(|| ra.intersect(ra)).map_err(|p| Failure::new("intersect-panics", format!("{}: A.intersect(A) panicked: {}", ctx(), p)))?)?;
+    // same call twice, same answer (no hidden state)
+    let again = guard(|| ra.intersect(rb)).map_err(|p| Failure::new("intersect-panics", format!("{}: second intersect panicked: {}", ctx(), p)))?;
+    if again != ab.range {
+        return Err(Failure::new("intersect-not-deterministic", format!("{}: A∩B = {:?} the first time and {:?} the second", ctx(), ab.text, again.map(|r| r.to_string()))));
+    }
     let pv = probes_of(&[&a, &b, &ab], &c.extra);
     let tie = share_bound(&a.model, &b.model);
     if tie {
